@@ -32,7 +32,7 @@ from multiprocessing import get_context
 
 import numpy as np
 
-from common import NPROC, REPO, shrink_list
+from common import NPROC, REPO, shrink_list, source_pins
 
 TRUSTED_BASE = [
     "Coq 8.16.1 kernel + coqc; vm_compute only for the concrete regression / non-vacuity Examples and in the correspondence check (no native_compute)",
@@ -49,7 +49,7 @@ ASSUMPTIONS = [
 ]
 RULE = ("bounded-exhaustive: every operation sequence over {open, add, save_opt_params, close, load, clean_up} up to "
         "length 5 (quick) / 7 (thorough), maxlen in {1,2,3} (maxlen=None to length 4/5), all observers evaluated after every step; thorough adds "
-        "state-deduplicated breadth-first exploration to length 6 (quick) / 8 (thorough) and random sequences of length <= 30; a node is "
+        "state-deduplicated breadth-first exploration to length 6 (quick, maxlen 2) / 8 (thorough, maxlen 1..3) and random sequences of length <= 30; a node is "
         "non-trivial when its operation changed the observable state or raised; distinct by (maxlen, path). "
         "Start configurations: empty directory, or a finished archive of an earlier run (other items and parameters) "
         "already present under the trajectory's name, with the name passed to open()/load() as 't.zip', 't' or 't.ZIP' "
@@ -57,6 +57,18 @@ RULE = ("bounded-exhaustive: every operation sequence over {open, add, save_opt_
         "Simulated stops: low-level writes of every file-changing operation (all of them in the deduplicated and random "
         "streams, up to 10 evenly spaced per operation in the exhaustive stream) plus torn and truncated images at "
         "64-byte steps.")
+
+# every function coq/C20/Model.v was written from (its file:line comments), plus the callers whose use of a
+# trajectory the reuse oracles rely on
+PINS = [("autode/opt/optimisers/base.py", "OptimiserHistory." + m) for m in (
+    "__init__", "final", "penultimate", "_n_stored", "__len__", "open", "load", "clean_up", "save_opt_params",
+    "get_opt_params", "add", "close", "__getitem__", "__iter__", "__reversed__")] + [
+    ("autode/opt/optimisers/base.py", "NDOptimiser.from_file"),
+    ("autode/calculations/executors.py", "CalculationExecutorO.run"),
+    ("autode/calculations/executors.py", "CalculationExecutorO._opt_trajectory_name"),
+    ("autode/calculations/executors.py", "CalculationExecutorO._opt_trajectory_exists"),
+    ("autode/calculations/executors.py", "CalculationExecutorO._set_properties_from_optimiser"),
+]
 
 SLICE = ["C20/Model.v", "C20/Lemmas.v", "C20/Props.v", "C20/Corr.v"]
 PRE = ("From Coq Require Import List ZArith NArith Bool.\nFrom AV.lib Require Import QcInst.\n"
@@ -1009,6 +1021,10 @@ def edge_oracles(ctx):
 def run(ctx):
     sys.path.insert(0, REPO)
     quick = ctx.quick
+    pins_changed = source_pins(ctx.pid, PINS)
+    ctx.cov["source_pins"] = {"pinned": len(PINS), "changed": pins_changed}
+    if pins_changed:
+        ctx.log("source pins changed:", pins_changed)
     # 1. proofs
     proofs_ok, info = ctx.proofs(["lib/Sums.v", "lib/QcInst.v"] + SLICE, "C20/Props.v", "AV.C20.Props",
                                  extra_targets=["C20/Corr.vo"])
@@ -1079,7 +1095,7 @@ def run(ctx):
         # thorough: state-deduplicated BFS deeper, and random long sequences
         bfs_depth = 6 if quick else 8
         seen, frontier = set(), []
-        for ml in (1, 2, 3, (2, "t", True)) + (() if quick else ((1, "t.ZIP", True), (3, "t", True))):
+        for ml in ((2, (2, "t", True)) if quick else (1, 2, 3, (2, "t", True), (1, "t.ZIP", True), (3, "t", True))):
             im = Impl(ml, quick)
             _root_record(im)
             frontier.append((ml, "", [], pickle.dumps(im.snapshot()), quick, OPS if quick else OPS + "D"))
@@ -1181,10 +1197,16 @@ def run(ctx):
     ctx.cov["finding_keys_observed"] = sorted(observed)
     if not proofs_ok:
         ctx.proof_failure(info, found_any_input=(concrete > 0))
+    if pins_changed and concrete == 0 and proofs_ok and not (corr_bad or corr_err):
+        ctx.violation("hand model no longer pinned to the source: " + ", ".join(pins_changed),
+                      {"kind": "source-pin", "changed": pins_changed,
+                       "note": "the pinned functions differ from the ones coq/C20/Model.v was written from; every stream "
+                               "was run and neither an oracle nor the correspondence found a failing input"},
+                      found_input=False)
     if corr_bad or corr_err:
         corr_bad.sort(key=lambda t: (t[1].endswith("*"), len(t[1]), norm_cfg(t[0]), t[1]))
         first = corr_bad[0] if corr_bad else None
-        rep = {"kind": "correspondence", "coq_error": corr_err}
+        rep = {"kind": "correspondence", "coq_error": corr_err, "source_pins_changed": pins_changed}
         if first:
             ml, path, cops, n = first
             small = path
